@@ -343,11 +343,13 @@ def _fresh_like(it, v, name):
             return M.MISSING
         v = lift(it, v, d[0], d[1])
     if isinstance(v, SymMap):
+        # havoc in place (like array-lists): every alias of the dict -- e.g. the caller of a helper that fills it -- sees it
         ks = v.kspec.sort
-        return SymMap(v.kspec, v.vspec,
-                      run.fresh(name + '_dom', z3.ArraySort(ks, z3.BoolSort())),
-                      run.fresh(name + '_val', z3.ArraySort(ks, v.vspec.sort)),
-                      run.fresh(name + '_src', z3.ArraySort(ks, z3.IntSort())))
+        v.dom = run.fresh(name + '_dom', z3.ArraySort(ks, z3.BoolSort()))
+        v.val = run.fresh(name + '_val', z3.ArraySort(ks, v.vspec.sort))
+        v.src = run.fresh(name + '_src', z3.ArraySort(ks, z3.IntSort()))
+        v.stored = []
+        return v
     if isinstance(v, SymSet):
         return SymSet(v.kspec, run.fresh(name + '_mem', z3.ArraySort(v.kspec.sort, z3.BoolSort())))
     return M.MISSING
